@@ -147,6 +147,16 @@ func eqArgsMerge(c *Ctx, a *flAgg) {
 				a.bad("EF-fresh-merge", "Args.merge/foreign-store", "merge writes outside its result: "+as, pos)
 			}
 		}
+		// a composite literal stored as a whole into the (zeroed) element is
+		// the field stores it abbreviates
+		if whole != nil && whole.Op == OpInit && whole.Parts != nil && len(whole.Args) == 1 && len(stores) == 0 {
+			if ab := addrBase(whole.Args[0]); ab != nil && ab.Op == OpAlloc && strings.HasPrefix(ab.Name, "complit") {
+				for f, v := range whole.Parts {
+					stores[f] = v
+				}
+				whole = nil
+			}
+		}
 		lIsAgg := false
 		haveAgg := false
 		var eqCall *Expr
